@@ -349,6 +349,38 @@ fn main() {
             check::<Poly2<'H', 'T', i64>, i64>(&run, &name, d, false, &[(0, 1), (2, 1)], false);
         });
     }
+    // ---- the largest non-alternating table knots: 10_124..10_165 and K11n1..K11n185 -----------------------------
+    // (seed `C05-connect-one-endpoint-drops-genus`: a gluing pattern - a handle closed by the first strip of a
+    //  new crossing, the second strip attached at one end only - that among all 2 214 table entries occurs only
+    //  on K11n145, K11n169, K11n173, and there only for some hash-seeded elimination orders.)  d∘d = 0, shapes,
+    //  degrees and homogeneity over Z[H,T], the universal coefficients; no specialisation (the reference Smith
+    //  forms of these complexes are the expensive part), each knot several times.
+    {
+        let reps = if th { 6 } else { 2 };
+        let mut names: Vec<String> = (124..=165).map(|k| format!("10_{k}")).collect();
+        names.extend((1..=185).map(|k| format!("K11n{k}")));
+        let tab: Vec<(String, Diagram)> = names
+            .into_iter()
+            .filter_map(|n| {
+                let l = yui_link::Link::load(&n).ok()?;
+                let (d, _) = Diagram::from_pd(&pd_of(&l))?;
+                Some((format!("table:{n}"), d))
+            })
+            .collect();
+        run.add("big_table_knots", tab.len() as u64);
+        let jobs: Vec<(usize, usize)> = (0..reps).flat_map(|r| (0..tab.len()).map(move |i| (i, r))).collect();
+        run.par_for(jobs.len(), |j| {
+            if run.over_budget() {
+                run.cap("wall budget reached (10- and 11-crossing non-alternating knots)");
+                return;
+            }
+            let (i, r) = jobs[j];
+            let (name, d) = &tab[i];
+            let name = format!("{name}#{r}");
+            check::<Poly2<'H', 'T', i64>, i64>(&run, &name, d, false, &[], false);
+            run.add("big_table_knot_builds", 1);
+        });
+    }
     // ---- diagrams with more than 32 crossings --------------------------------------------------------------
     // closures of the 3-braids (s1 s2)^q with 34..40 crossings (thorough up to 60): the
     // crossing-state words leave the low 32 bits (seed `C05-connect-edges-sign-from-low-32-bits`: the sign
@@ -376,6 +408,7 @@ fn main() {
     let coverage = json!({
         "diagrams_with_more_than_32_crossings": run.get("big_diagrams"),
         "table_links_beyond_the_cube": run.get("table_links"),
+        "non_alternating_knots_10_and_11_crossings": {"knots": run.get("big_table_knots"), "builds_over_Z[H,T]": run.get("big_table_knot_builds")},
         "evaluations": run.get("evaluations"),
         "distinct_nontrivial": run.get("complexes"),
         "rule": "all planar diagrams with <= 3 crossings + braid closures x rings {Z,Q,F2,F3,Z[H],Z[T],Z[H,T],Q[H],F2[H]} x reduced/unreduced (reduced only with t = 0); each (diagram, ring, reduced) complex is distinct; differentials are read entry by entry and multiplied with reference polynomial arithmetic; every complex over a polynomial ring is evaluated at every point of the (h,t) grid and its reference homology compared with the directly built complex and with the reference cube",
